@@ -29,6 +29,26 @@ if REPO not in sys.path:
     sys.path.insert(0, REPO)
 
 
+def module_tables():
+    """a snapshot (repr) of every module-level UPPER_CASE dict / list / set / tuple of the aiosmpplib modules"""
+    import importlib
+    import pkgutil
+    import aiosmpplib
+    snap = {}
+    for mi in pkgutil.iter_modules(aiosmpplib.__path__):
+        try:
+            mod = importlib.import_module('aiosmpplib.' + mi.name)
+        except Exception:      # noqa
+            continue
+        for nm, val in vars(mod).items():
+            if nm.isupper() and isinstance(val, (dict, list, set, tuple)) and getattr(val, '__module__', None) is None:
+                try:
+                    snap[mi.name + '.' + nm] = repr(sorted(val.items(), key=repr)) if isinstance(val, dict) else repr(val)
+                except Exception:      # noqa
+                    snap[mi.name + '.' + nm] = '<no repr>'
+    return snap
+
+
 class Case:
     """One correspondence case.
 
@@ -309,6 +329,7 @@ def _check(area, pid, tier, seed, t0, args):
 
     # 4: correspondence + predicate net
     cases = []
+    tables_before = module_tables()
     try:
         for c in area.generate(rng, tier):
             cases.append(c)
@@ -321,6 +342,14 @@ def _check(area, pid, tier, seed, t0, args):
         tb = traceback.format_exc()
         broken.append(('harness', 'driving the real code raised %s after %d cases: %s' % (
             type(e).__name__, len(cases), ' | '.join(tb.strip().splitlines()[-6:])[:1200])))
+    # the tables the models were generated from (by a fresh process, before the run) must still be what the library holds
+    # after everything the run did with it: a module-level table written to at run time is state no model describes
+    try:
+        changed = [k for k, v in module_tables().items() if tables_before.get(k) != v]
+    except Exception as e:      # noqa
+        changed = ['<unreadable: %r>' % (e,)]
+    if changed:
+        broken.append(('tables', 'module-level tables of the library changed while the cases ran: %s' % ', '.join(sorted(changed)[:8])))
     evaluations = len(cases)
     sigs = {}
     for c in cases:
